@@ -62,7 +62,14 @@ fn known_frame_type(t: u64) -> bool {
 
 fn random_unknown(rng: &mut Rng, known: impl Fn(u64) -> bool) -> u64 {
     loop {
-        let t = match rng.below(5) {
+        let t = match rng.below(6) {
+            // a known small value with other bits set above it: equal to a known type modulo
+            // 2^8, 2^16 or 2^32 (a narrowing cast or a masked comparison would mistake it)
+            5 => {
+                let low = *rng.pick(&[0x00u64, 0x01, 0x02, 0x03, 0x04, 0x07, 0x08, 0x33, 0x41, 0x54, 0x2843, 0x2b60_3742, 0xc671_706a]);
+                let shift = if low > 0xffff { 32 } else { *rng.pick(&[8u32, 16, 32, 32, 32]) };
+                (rng.range(1, (1 << (62 - shift)) - 1) << shift) | low
+            }
             0 => rng.range(0x0a, 0x3f),
             1 => rng.range(0x40, 0x3fff),
             2 => rng.range(0x4000, 0x3fff_ffff),
